@@ -94,54 +94,9 @@ def allocVertex (w : World) (c : VCls) (attrs : List (Nat × Nat)) (us : List VI
             attrs := upd w.attrs w.nV attrs
             cache := upd w.cache w.nV [] }, w.nV)
 
-def addToLinks (f : Nat) (w : World) (v : VId) : List LId → Option World
-  | [] => some w
-  | l :: ls => match addToLink f w v l with
-    | none => none
-    | some w => addToLinks f w v ls
-
-def uniAddVertices (f : Nat) (w : World) (u : VId) : List VId → Option World
-  | [] => some w
-  | v :: vs => match uniAddVertex f w u v with
-    | none => none
-    | some w => uniAddVertices f w u vs
-
-/-- `for uni in self.universes: uni.add_vertex(self)` -/
-def joinUniverses (f : Nat) (w : World) (v : VId) : List VId → Option World
-  | [] => some w
-  | u :: us => match uniAddVertex f w u v with
-    | none => none
-    | some w => joinUniverses f w v us
-
-/-- `cls(links=ls, universes=us, attributes=attrs)` for a non-universe vertex class -/
-def newVertex (f : Nat) (w : World) (c : VCls) (attrs : List (Nat × Nat))
-    (ls : List LId) (us : List VId) : Except Err (World × VId) :=
-  let (w, v) := allocVertex w c attrs us
-  match addToLinks f w v ls with
-  | none => .error .recursion
-  | some w =>
-    match joinUniverses f w v (w.unis v) with
-    | none => .error .recursion
-    | some w => .ok ((w.invalidate v), v)   -- `self.__qa_nb_cache = {}`
-
 /-- `UniverseLaws()` -/
 def allocLaws (w : World) : World × WId :=
   ({ w with nW := w.nW + 1, appliesTo := upd w.appliesTo w.nW none }, w.nW)
-
-/-- `Universe(vertices=vs, laws=L?)` -/
-def newUniverse (f : Nat) (w : World) (attrs : List (Nat × Nat)) (vs : List VId)
-    (L : Option WId) : Except Err (World × VId) :=
-  let (w, u) := allocVertex w .UNI attrs []
-  let w := w.invalidate u
-  let (w, L) := match L with
-    | some L => (w, L)
-    | none => allocLaws w
-  match setLaws f w u (some L) with
-  | none => .error .recursion
-  | some w =>
-    match uniAddVertices f w u vs with
-    | none => .error .recursion
-    | some w => .ok (w, u)
 
 end M
 end EG
